@@ -61,7 +61,7 @@ def sched_runs(res, work, tier, seed, clauses, parts=5, only=None, matcher=None,
         if r["violated"] or not r["consumed"]:
             raise vlib.Infra("M3ObsTrace did not consume the trace of part %d: %s\n%s" % (i, r["violated"], r["out"][-3000:]))
         if step_level and meta.get("step_events", 0) > 0:
-            step_validate(res, d, meta["step_events"], selftest=(i == 0))
+            step_validate_all(res, d, meta, selftest=True)
         return d, meta, fails, r
 
     with ThreadPoolExecutor(max_workers=min(parts, 6)) as ex:
@@ -117,18 +117,40 @@ def _run_steps(d):
     return int(m.group(1)), int(m.group(2)), r
 
 
-def step_validate(res, d, nlines, selftest=False):
+def step_validate_all(res, d, meta, selftest=False):
+    """Step-level conformance of every scenario of this part: one step file per scenario (its first line carries the model
+    constants), each replayed through M3Reporter.tla."""
+    import shutil
+    files = meta.get("step_files") or []
+    did = False
+    for f in files:
+        src = os.path.join(d, f)
+        if not os.path.exists(src) or os.path.getsize(src) == 0:
+            continue
+        sd = os.path.join(d, "st-" + f.replace(".ndjson", ""))
+        os.makedirs(sd, exist_ok=True)
+        for x in os.listdir(d):
+            if x.endswith(".tla") or x.endswith(".cfg"):
+                shutil.copyfile(os.path.join(d, x), os.path.join(sd, x))
+        shutil.copyfile(src, os.path.join(sd, "steps.ndjson"))
+        n = len(vlib.read_lines(os.path.join(sd, "steps.ndjson")))
+        step_validate(res, sd, n, selftest=(selftest and not did and f.startswith("steps-hs-")), label=f)
+        did = did or f.startswith("steps-hs-")
+        shutil.rmtree(sd, ignore_errors=True)
+
+
+def step_validate(res, d, nlines, selftest=False, label=""):
     """Step-level conformance: every granted step of the handshake scenarios must be the action of M3Reporter.tla for that
     thread and label, from a state with the logged projection.  A rejected step is DRIFT (recorded, not a verdict)."""
     consumed, total, r = _run_steps(d)
-    res.add_trace_run("M3StepTrace (every step of the handshake scenarios replayed through M3Reporter.tla)", r, 0, total)
+    res.add_trace_run("M3StepTrace %s (every granted step replayed through M3Reporter.tla)" % label, r, 0, total)
     res.states += r["distinct"]; res.transitions += r["generated"]
     res.extra["step_level_lines"] = res.extra.get("step_level_lines", 0) + consumed
     lines = vlib.read_lines(os.path.join(d, "steps.ndjson"))
     if consumed < total:
         bad = lines[consumed] if consumed < len(lines) else ""
-        res.drift.append(dict(module="M3StepTrace", consumed=consumed, total=total, rejected_step=bad))
-        print("DRIFT (not a verdict): step %d of the M3 handshake trace is not an action of M3Reporter.tla from the logged state: %s" % (consumed + 1, bad))
+        res.drift.append(dict(module="M3StepTrace", file=label, consumed=consumed, total=total, rejected_step=bad))
+        print("DRIFT (not a verdict): line %d of %s is not an action of M3Reporter.tla from the logged state: %s" % (consumed + 1, label, bad))
     elif selftest and total > 200:
         # the binding is demonstrated on every run: one corrupted projection and one removed step must be rejected at that line
         good = os.path.join(d, "steps.good.ndjson")
